@@ -216,7 +216,7 @@ func (p *parser) parseIndexOrSliceExpr(left Node, allowSlice bool) Node {
 		return nil
 	}
 	p.advanceWSS() // advance past ]
-	t := left.Type().Sub
+	t := fixedType(left.Type().Sub) // an element is not a constant, even if it is a composite
 	if leftType == STRING {
 		t = STRING_TYPE
 	}
@@ -289,7 +289,7 @@ func (p *parser) parseDotExpr(left Node) Node {
 		p.appendErrorForToken(`expected map key, found `+p.cur.TokenType().String(), tok)
 		return nil
 	}
-	expr := &DotExpression{token: tok, Left: left, T: left.Type().Sub, Key: key.Literal}
+	expr := &DotExpression{token: tok, Left: left, T: fixedType(left.Type().Sub), Key: key.Literal}
 	p.advance() // advance past key IDENT
 	return expr
 }
@@ -322,7 +322,7 @@ func (p *parser) parseTypeAssertion(left Node) Node {
 	if left.Type() != ANY_TYPE {
 		p.appendErrorForToken("value of type assertion must be of type any, not "+left.Type().String(), tok)
 	}
-	return &TypeAssertion{T: t, token: tok, Left: left}
+	return &TypeAssertion{T: fixedType(t), token: tok, Left: left}
 }
 
 func isBinaryOp(tt lexer.TokenType) bool {
